@@ -10,6 +10,8 @@ CONSTANTS
   MacroCloses = {3, 300, 2000}
   SnipDeeps = {100, 200, 254}
   FileChains = {1050, 1200, 2127, 3150, 4150, 1255, 7040}
+  SnipSplits = {100155, 1100155, 100156, 1100156, 100157, 1100157, 1001255, 1001256, 1200057}
+  FileSplits = {100155, 1100155, 100156, 1100156, 100157, 1100157, 1001255, 1001256, 1200057}
   Devs = {"SelfImportDoubling", "ImportLadder", "EmptyMacroEmbed", "MacroCloseNesting", "DeepImportTree"}
 
 POSTCONDITION Post
